@@ -89,6 +89,8 @@ def run_shard(ctx):
             one(ctx, cfg, ad, M.gen_read(rng, cfg, ad.sequence))
     for k in range(ctx.scale(8, 150)):
         cli_case(ctx, ctx.shard * 100000 + k)
+    for k in range(ctx.scale(8, 150)):
+        cli_index_case(ctx, ctx.shard * 100000 + 50000 + k)
     if ctx.tier == "thorough":
         reads = list(M.exhaustive_reads(6))
         for cfg in M.exhaustive_configs(ctx.shard, ctx.nshards):
@@ -214,7 +216,90 @@ def cli_case(ctx, k):
         shutil.rmtree(d, ignore_errors=True)
 
 
+def cli_index_case(ctx, k):
+    """Several anchored adapters of one kind (the default run looks them up in an index): a read whose anchored end is a
+    copy of one adapter with as many characters replaced by N (or another non-base) as that adapter tolerates contains
+    an admissible occurrence, so something has to be removed - whatever the other adapters and their tolerances are."""
+    import os
+    import shutil
+    from .. import climon, fastx, gen_cli as G
+
+    rng = ctx.rng("c02idx", k)
+    prefix = rng.random() < 0.5
+    literal_n = rng.random() < 0.2           # -N: the adapter's own N is an ordinary character
+    L = rng.randint(8, 12)
+    equal = rng.random() < 0.6
+    center = G.rnd(rng, L)
+    ads = []
+    for i in range(rng.randint(2, 5)):
+        if i and rng.random() < 0.6:
+            seq = G.mutate_sub(rng, center, rng.choice([1, 2, 2, 3]))
+        else:
+            seq = G.rnd(rng, L if equal else rng.randint(8, 12))
+        if literal_n and rng.random() < 0.6:
+            p = rng.randrange(len(seq))
+            seq = seq[:p] + "N" + seq[p + 1:]
+        rate = rng.choice([0, 0.1, 0.13, 0.2, 0.25])
+        if seq not in [a[0] for a in ads]:
+            ads.append((seq, rate))
+    if len(ads) < 2:
+        return
+    no_indels = rng.random() < 0.5
+    recs = []
+    musts = {}
+    for i in range(40):
+        seq, rate = rng.choice(ads)
+        kk = int(rate * len(seq))
+        j = rng.randint(0, kk) if rng.random() < 0.85 else kk + 1
+        sl = list(seq)
+        free = [p for p in range(len(sl)) if sl[p] != "N"]
+        for p in rng.sample(free, min(j, len(free))):
+            sl[p] = rng.choice("NNNN.R")
+        rest = G.rnd(rng, rng.randint(0, 12))
+        s = "".join(sl) + rest if prefix else rest + "".join(sl)
+        musts[f"r{i}"] = (seq, rate, j) if j <= kk else None
+        recs.append((f"r{i}", s, "I" * len(s)))
+    d = os.path.join(ctx.scratch, f"cidx{k}")
+    os.makedirs(d, exist_ok=True)
+    try:
+        inputs = climon.write_inputs(d, recs)
+        argv = []
+        for seq, rate in ads:
+            argv += ["-g", f"^{seq};e={rate}"] if prefix else ["-a", f"{seq}$;e={rate}"]
+        argv += (["--no-indels"] if no_indels else []) + (["-N"] if literal_n else []) + ["-o", "out.fq"]
+        run = climon.run(d, argv + inputs, trace=False)
+        ctx.count("cli_index_runs")
+        if literal_n:
+            ctx.count("cli_index_runs_with_literal_n")
+        if run.rc != 0:
+            ctx.count("cli_runs_failed")
+            return
+        case = climon.case_record(argv + inputs, d, inputs)
+        case["cli_k"] = k
+        case["kind"] = "index"
+        fo = run.records("out.fq")
+        outs = {fastx.rid(r[0]): r[1] for r in fo[1]} if fo and fo[0] != "error" else {}
+        for name, s, q in recs:
+            must = musts[name]
+            ctx.case(("cli-index", str(ads), s, no_indels) if must else None)
+            o = outs.get(name)
+            if o is None:
+                ctx.violation("cli-read-missing", f"read {name} not written; argv={argv}", case)
+            elif must and len(o) >= len(s):
+                ctx.count("cli_index_reads_with_non_base_characters", 1 if must[2] else 0)
+                ctx.violation("missed-occurrence", f"the anchored end of read {s!r} is the adapter {must[0]} with {must[2]} characters replaced by N or another "
+                              f"non-base (tolerance {must[1]} x {len(must[0])}) but nothing was removed; argv={argv}", case, klass="cli-index")
+            elif must and must[2]:
+                ctx.count("cli_index_reads_with_non_base_characters")
+    finally:
+        shutil.rmtree(d, ignore_errors=True)
+
+
 def replay(ctx, case):
+    if case.get("kind") == "index":
+        ctx.shard = case["cli_k"] // 100000
+        cli_index_case(ctx, case["cli_k"])
+        return
     if case.get("cli"):
         ctx.shard = case["cli_k"] // 100000
         cli_case(ctx, case["cli_k"])
